@@ -1,0 +1,13 @@
+//go:build verif
+
+package statsd
+
+// Contracts checked by /verif/gvc. Comment-only file (build tag verif).
+
+// One datagram: every line is parsed or counted bad; nothing panics. len(msg) < 2^32 is what the
+// lexer needs (datagrams are at most 65535 bytes).
+//@ func (*DatagramParser).handleDatagram
+//@   requires dp != nil && l != nil && l.MetricPool != nil && dp.handler != nil && dp.logger != nil && dp.badLineLimiter != nil
+//@   requires len(msg) < 4294967296
+//@   loop 1 invariant l.MetricPool != nil && len(msg) < 4294967296
+//@   modifies everything
